@@ -32,6 +32,7 @@ func checkDefs() map[string]*CheckDef {
 			Runs: func(tier string) []RunSpec {
 				return []RunSpec{
 					{Name: "sort", Pkg: ioc + "/util/framework_helper", Entry: "VerifC12Sort", Params: map[string]int{"N": tierPick(tier, 5, 6)}, MustCover: []string{"sorted"}},
+					{Name: "processors-call-site", Pkg: ioc + "/container/factory", Entry: "VerifC12Processors", Params: map[string]int{"K": tierPick(tier, 3, 4)}, MustCover: []string{"callbacks checked", "eager processor"}},
 					{Name: "runners-call-site", Pkg: ioc + "/app", Entry: "VerifC13", Params: map[string]int{"N": 3, "FAULTS": 0}, MustCover: []string{"all runners ok"}},
 					{Name: "loaders-call-site", Pkg: ioc + "/configure", Entry: "VerifC15Load", Params: map[string]int{"N": 3}, MustCover: []string{"several loaders"}},
 				}
@@ -146,7 +147,10 @@ func checkDefs() map[string]*CheckDef {
 	defs = append(defs,
 		&CheckDef{ID: "C13", Title: "Runners",
 			Runs: func(tier string) []RunSpec {
-				return []RunSpec{{Name: "run", Pkg: app, Entry: "VerifC13", Params: map[string]int{"N": tierPick(tier, 3, 4), "FAULTS": 1}, MustCover: []string{"all runners ok", "runner failed", "start-up fault"}}}
+				return []RunSpec{
+					{Name: "run", Pkg: app, Entry: "VerifC13", Params: map[string]int{"N": tierPick(tier, 3, 4), "FAULTS": 1}, MustCover: []string{"all runners ok", "runner failed", "start-up fault"}},
+					{Name: "integration", Pkg: app, Entry: "VerifAppIntegration", Params: map[string]int{"N": tierPick(tier, 3, 4), "R": 2}, MustCover: []string{"start ok", "component init fails"}, Opts: ExecOpts{Sched: "seq", PermuteRange: tier == "thorough"}},
+				}
 			},
 			LevelText: "Bounded symbolic model checking of the real App.run/initConfiguration/initFactory/refresh/callRunners with a logging stub factory: for every multiset of up to N runners (three classes, unconstrained 64-bit Order), every choice of failing runner and every failing start-up phase: no runner before refresh finished, each at most once and in the ordering contract's sequence, exactly once if none fails, nothing after a failing runner, run returns an error exactly when something failed.",
 			LevelNote: "Bound N runners (quick 3, thorough 4). That Refresh returning nil means every eager component is initialised is C05, composed informally. App.Run's option handling and initiate() are outside (whole-program).",
@@ -190,7 +194,10 @@ func checkDefs() map[string]*CheckDef {
 	defs = append(defs,
 		&CheckDef{ID: "C06", Title: "Type-directed injection",
 			Runs: func(tier string) []RunSpec {
-				return []RunSpec{rh("types", "VerifC06", map[string]int{"K": tierPick(tier, 2, 3), "PORDER": tierPick(tier, 1, 0)}, "start ok", "start failed", "several candidates")}
+				return []RunSpec{
+					rh("types", "VerifC06", map[string]int{"K": tierPick(tier, 2, 3), "PORDER": 0}, "start ok", "start failed", "several candidates"),
+					rh("same-named-types", "VerifC06SameName", map[string]int{"K": tierPick(tier, 2, 3)}, "two same-named interface types"),
+				}
 			},
 			LevelText: "Bounded symbolic model checking of the real dependencyAware/dependencyFunctionAware/dependencyFurtherMatching processors (sequenced by the real SortOrderedComponents), container.Type/InterfaceType/FuncName, defaultDefinitionRegistry.GetMetas (enumeration order = symbolic permutation), the real tag scanner and populateComponent/Inject: for every population of up to K providers over a universe of four provider types and eight consumer field kinds (*T, I, []*T, []I, any, func-tag slice, and holders that are themselves candidates), the injected set equals an order-free specification written from static facts about the types.",
 			LevelNote: "Reduced claim: types are program text, so the type universe is fixed (4 provider types incl. a 'merely similar' pointer type, 8 field kinds); K<=2 (thorough 3); func tag only without returns=. The reflect model is validated by native replay of sampled paths.",
@@ -222,6 +229,7 @@ func checkDefs() map[string]*CheckDef {
 					rh("required-vs-optional-by-name", "VerifC07", map[string]int{"K": 2}, "optional point, no such component"),
 					{Name: "run-phases-and-runners", Pkg: app, Entry: "VerifC13", Params: map[string]int{"N": 2, "FAULTS": 1}, MustCover: []string{"start-up fault", "runner failed"}},
 					{Name: "loaders", Pkg: ioc + "/configure", Entry: "VerifC15Load", Params: map[string]int{"N": 3}, MustCover: []string{"loader failed"}},
+					{Name: "integration", Pkg: app, Entry: "VerifAppIntegration", Params: map[string]int{"N": 2, "R": 1}, MustCover: []string{"component init fails"}, Opts: ExecOpts{Sched: "seq"}},
 					{Name: "configuration-values", Pkg: prc, Entry: "VerifC09Values", MustCover: []string{"required value missing", "optional value missing", "value present"}},
 				}
 			},
@@ -265,7 +273,7 @@ func checkDefs() map[string]*CheckDef {
 	defs = append(defs,
 		&CheckDef{ID: "C11", Title: "Tag scanning through embedded structs, frame condition",
 			Runs: func(tier string) []RunSpec {
-				return []RunSpec{{Name: "shapes", Pkg: fac, Entry: "VerifC11", Params: map[string]int{"SHAPES": 7}, MustCover: []string{"see-through embedding", "opaque embedding"}, Opts: ExecOpts{PermuteRange: tier == "thorough"}}}
+				return []RunSpec{{Name: "shapes", Pkg: fac, Entry: "VerifC11", Params: map[string]int{"SHAPES": 8}, MustCover: []string{"see-through embedding", "opaque embedding", "same type embedded twice"}, Opts: ExecOpts{PermuteRange: tier == "thorough"}}}
 			},
 			LevelText: "Bounded symbolic model checking of NewMeta/scanFields/ForEachFieldV2, the real tag-scan processors (wire, func, value+prop, prefix, logger) plus a custom-tag processor, and the real populate path, on a fixed family of struct shapes (flat; the same tagged block embedded by value at depth 1, 2, 3; embedded struct with an unexported type name, also in the middle of the chain; embedded struct that itself carries a tag; embedded pointer-to-struct) with SYMBOLIC initial contents of every field and symbolic configured values: per shape the property list and every bound value equal those of the flat twin, the custom processor receives exactly its field with value and arguments, and unexported / untagged / foreign-tagged / unexported-but-tagged fields are bit-identical afterwards.",
 			LevelNote: "Reduced claim: struct types are program text, not solver data - the quantification over 'all struct shapes' is NOT addressed, only the 8 shapes listed. The reflect model's CanSet/embedding rules are validated by native replay of the sampled paths on exactly these shapes.",
